@@ -377,3 +377,27 @@ async fn detached_has_no_pool() {
     let got = tokio::time::timeout(Duration::from_secs(2), &mut a).await.expect("detached dial never completed").expect("detached dial failed");
     assert!(got.token.is_zero() && got.pool.is_none(), "connection of a detached checkout refers to a pool");
 }
+
+/// reg.share_alive [C04, C03]: a multiplexed connection is registered with the pool even when another thread holds
+/// the pool lock at that moment (the registration waits for the lock; it must not be skipped)
+#[test]
+fn register_connected_under_contention() {
+    let pool: TPool = Pool::new(cfg_bg(false));
+    let token = pool.keys.lock().insert(example_key());
+    let poolref = pool.as_ref();
+    let p2 = pool.clone();
+    let (started_tx, started_rx) = std::sync::mpsc::channel();
+    let holder = std::thread::spawn(move || {
+        let _g = p2.inner.lock();
+        started_tx.send(()).unwrap();
+        std::thread::sleep(Duration::from_millis(200));
+    });
+    started_rx.recv().unwrap(); // the lock is held elsewhere right now
+    let conn = MockSender::reusable();
+    let id = conn.id();
+    let handed = register_connected(&poolref, token, conn);
+    holder.join().unwrap();
+    assert_eq!(handed.id(), id);
+    assert!(idle_len(&pool, token) >= 1, "the HTTP/2 connection was not registered with the pool because its lock was busy: later requests dial again and waiters hang");
+    std::mem::forget(handed);
+}
